@@ -367,11 +367,8 @@ def explains(broken_item, found):
         return False
     if "itk resampler spec" in b:
         return False
-    if "const" in b or "gs_pre" in b or "gs_post" in b:
-        return "constant" in keys or "vs-itk" in keys
-    if "smat" in b or "module" in b or "sampleimage" in b or "alignimage" in b or "transformimage" in b:
-        return any(k in keys for k in ("sampleimage", "alignimage", "transformimage"))
-    return any(k in keys for k in ("vs-itk", "own-", "coords-vs-grid", "point-set", "per-image", "shared-grid", "raises", "mutates", "constant"))
+    # any concrete violation found on the implementation is attributed to broken obligations without a more specific cause
+    return True
 
 
 def replay(ctx, data):
